@@ -180,6 +180,12 @@ func Run(c *ev.Ctx) {
 		alpha = append(alpha, cmdlib.KVSpec{Verb: api.KVSet, Key: k, Val: "y"}.Op(), cmdlib.KVSpec{Verb: api.KVDelete, Key: k}.Op())
 	}
 	alpha = append(alpha, cmdlib.KVSpec{Verb: api.KVDeleteTree, Key: "a"}.Op())
+	// plain (non-lock) writes that carry a session value: a live one, and one that never existed
+	for _, k := range keys {
+		alpha = append(alpha, cmdlib.KVSpec{Verb: api.KVSet, Key: k, Val: "w", Sess: "s1"}.Op(), cmdlib.KVSpec{Verb: api.KVSet, Key: k, Val: "w", Sess: "s9"}.Op(),
+			cmdlib.KVSpec{Verb: api.KVCAS, Key: k, Val: "w", Sess: "s9", Idx: cmdlib.IdxZero, UseIdx: true}.Op(),
+			cmdlib.Txn(cmdlib.KVSpec{Verb: api.KVSet, Key: k, Val: "w", Sess: "s9"}.TxnOp()))
+	}
 	alpha = append(alpha, s1.Create(), s2.Create(), s3.Create(), s4.Create(), cmdlib.SessionDestroy("s1"), cmdlib.SessionDestroy("s2"), cmdlib.SessionDestroy("s3"), cmdlib.SessionDestroy("s4"))
 	alpha = append(alpha,
 		cmdlib.RegNode(n1), cmdlib.RegNode(n1b), cmdlib.RegNode(n2),
